@@ -147,3 +147,19 @@ Theorem C05_reported_path_addressable : forall q,
   Forall (fun x => name_ok x = true) q -> local_segs (external_path q) = Ok q.
 Proof. exact local_segs_external. Qed.
 Print Assumptions C05_reported_path_addressable.
+
+(** The executable scope check the oracle applies to the implementation's listing
+    ([tree_spec_ok]: no duplicate, every entry canonical / in scope / mapping back to
+    a node of its kind and size, every mapped path in scope listed) accepts the
+    model's listing, for every well-formed tree. *)
+Theorem C05_tree_spec_sound : forall X dmeta t writes ep name recursive segs ch,
+  codec_laws X ->
+  (forall p, x_text X (x_mime_ext X p) = x_mime_ext X p) ->
+  (forall q, (fst (dmeta q) < big)%N /\ (snd (dmeta q) < big)%N) ->
+  (forall n, t = Some n -> wf_node n) ->
+  ep <> "" ->
+  local_segs (resolve_href ep name) = Ok segs ->
+  geto t segs = Some (Dir ch) ->
+  tree_spec_ok t ep name recursive (snd (client_readdir X (local_fs X dmeta t writes) ep name recursive)) = true.
+Proof. exact tree_spec_sound. Qed.
+Print Assumptions C05_tree_spec_sound.
